@@ -142,7 +142,7 @@ func checkC10(c *core.Ctx) {
 		"library level: Marshal/Unmarshal round trip of every scalar type (every Degree up to 64, 28 keys, fractions with 64-bit operands, meters, dynamics, bpm, metadata maps with every pair of a 40-rune hostile alphabet) and of whole instances; non-trivial = pipeline with an altered or compound interval, a non-ASCII or YAML-significant string and a setting; distinct by text")
 	c.Assume("score model (theory + exact ticks)", "smfdec", "yaml.v3 as the harness's reader", "metadata values that chord text cannot carry ({ } = , and leading blanks) are not generated for the text pipelines")
 
-	c.Stream("pipeline", c.N(2000, 20000), func(i int, r *rand.Rand) {
+	c.Stream("pipeline", c.N(2000, 40000), func(i int, r *rand.Rand) {
 		syllable := i%3 == 0
 		maxDeg := 15
 		if syllable {
@@ -307,7 +307,7 @@ func checkC10(c *core.Ctx) {
 	})
 
 	// instance documents (not reachable from chord text: doubly altered intervals, hostile strings) through write conv
-	c.Stream("documents", c.N(500, 6000), func(i int, r *rand.Rand) {
+	c.Stream("documents", c.N(500, 15000), func(i int, r *rand.Rand) {
 		p := model.RandPiece(r, model.GenOpts{MinLen: 1, MaxLen: 8, RestProb: 0.2, SettingProb: 0.3, TextProb: 0.4, KeyChanges: true, BassProb: 0.5})
 		if !p.Effective(model.Flags{}).AllInRange() || !p.TotalBelow(960, 1<<28) {
 			return
